@@ -204,8 +204,11 @@ func loadStateAtHeight(db kaidb.Database, height uint64) *LatestBlockState {
 	state.LastBlockTime = blockMeta.Header.Time
 	state.LastBlockTotalTx = blockMeta.Header.NumTxs
 
-	appHash := rawdb.ReadAppHash(db, height)
-	state.AppHash = appHash
+	if height > 0 {
+		// like LastBlockID: the genesis state has a zero AppHash (MakeGenesisState) and
+		// block 1 is built and validated against it
+		state.AppHash = rawdb.ReadAppHash(db, height)
+	}
 
 	lValsInfo := rawdb.ReadConsensusValidatorsInfo(db, common.BytesToHash(sp.LastValidatorsInfoHash))
 	if state.LastBlockHeight > 0 {
